@@ -337,6 +337,11 @@ func newRuntimeState(compiled config.Compiled) *runtimeState {
 func (s *runtimeState) updateAll(compiled config.Compiled) {
 	s.mu.Lock()
 	defer s.mu.Unlock()
+	s.updateAllLocked(compiled)
+}
+
+// updateAllLocked swaps the route table and limits; s.mu must be held for writing.
+func (s *runtimeState) updateAllLocked(compiled config.Compiled) {
 	s.routes = compiled.Routes
 	s.pathToRoute = compiled.PathToRoute
 	s.trendSignals = compiled.Defaults.TrendSignals
@@ -839,6 +844,19 @@ func queueTrendSignalConfigFromCompiled(in config.TrendSignalsConfig) queue.Back
 }
 
 func (s *runtimeState) loadAuth(compiled config.Compiled) error {
+	return s.loadAuthAnd(compiled, nil)
+}
+
+// reloadAll loads the authenticators of compiled and swaps them together with the
+// route table, pull endpoint mapping and limits under one lock acquisition, so no
+// request can observe new authenticators with the old route table (or vice versa).
+func (s *runtimeState) reloadAll(compiled config.Compiled) error {
+	return s.loadAuthAnd(compiled, func() { s.updateAllLocked(compiled) })
+}
+
+// loadAuthAnd builds all authenticators first and swaps them under the lock only at
+// the end; alsoLocked, if set, runs inside the same critical section.
+func (s *runtimeState) loadAuthAnd(compiled config.Compiled, alsoLocked func()) error {
 	tokens := make([][]byte, 0, len(compiled.PullAPI.AuthTokens))
 	for _, ref := range compiled.PullAPI.AuthTokens {
 		b, err := secrets.LoadRef(ref)
@@ -990,6 +1008,9 @@ func (s *runtimeState) loadAuth(compiled config.Compiled) error {
 	s.basicByRoute = basicByRoute
 	s.forwardByRoute = forwardByRoute
 	s.hmacByRoute = hmacByRoute
+	if alsoLocked != nil {
+		alsoLocked()
+	}
 	s.mu.Unlock()
 	return nil
 }
@@ -1121,12 +1142,11 @@ func reloadConfig(path string, running config.Compiled, state *runtimeState, log
 		return running, false
 	}
 
-	if err := state.loadAuth(compiled); err != nil {
+	if err := state.reloadAll(compiled); err != nil {
 		logger.Error("config_reload_failed", slog.Any("err", err), slog.String("trigger", trigger))
 		return running, false
 	}
 	verifhook.Point("reload.after-loadauth")
-	state.updateAll(compiled)
 	verifhook.Point("reload.after-updateall")
 
 	logger.Info("config_reloaded_ok", slog.String("trigger", trigger))
